@@ -121,6 +121,7 @@ def check(ctx):
     oracle(ctx)
     batched_unsorted_probe(ctx)
     default_extrap_probe(ctx)
+    round6_probes(ctx)
 
 
 def oracle(ctx):
@@ -346,6 +347,53 @@ def default_extrap_probe(ctx):
         if not same or (mode != "nan" and bool(torch.isnan(got).any())):
             ctx.fail("oracle", "interp:default-extrap:%s" % bc, {"bc": bc, "documented_default": mode, "x": x.tolist(), "queries": q.tolist()},
                      {"got": got.tolist()}, {"with_explicit_extrap": ref.tolist()})
+
+
+def round6_probes(ctx):
+    """(a) a batched y with an interior batch dimension of size 1 (shape (2, 1, n)) given at construction behaves like the same y
+    given at call time: same values, shape (2, 1, nq) (round-6 seed C14/15: the slopes were squeezed with .squeeze() instead of
+    .squeeze(-1)).  (b) the derivative w.r.t. QUERY points outside the sample range, for the extrapolation modes that map the query back
+    into the range (mirror, periodic, bound), is the derivative of the extrapolated function itself (C14/16: the mapped position was
+    computed from a detached copy, the gradient of outside queries came back as 0)"""
+    from xitorch.interpolate import Interp1D
+    g = torch.Generator().manual_seed(ctx.seed + 29)
+    n = 6
+    x = torch.cumsum(torch.rand(n, dtype=DT, generator=g) + 0.2, dim=-1)
+    y3 = torch.randn(2, 1, n, dtype=DT, generator=g)
+    q = x[0] + (x[-1] - x[0]) * torch.rand(5, dtype=DT, generator=g)
+    for method, kw in (("linear", {}), ("cspline", {"bc_type": "natural"}), ("cspline", {"bc_type": "not-a-knot"}), ("cspline", {"bc_type": "clamped"})):
+        ctx.count(("singleton-batch-dim", method, kw.get("bc_type")), nontrivial=True)
+        try:
+            a = Interp1D(x, y3, method=method, **kw)(q)
+            b = Interp1D(x, method=method, **kw)(q, y3)
+            rows = torch.stack([Interp1D(x, y3[i, 0], method=method, **kw)(q) for i in range(2)]).unsqueeze(1)
+        except Exception as e:
+            ctx.fail("oracle", "interp:singleton-batch-dim:exception", {"method": method, "bc": kw.get("bc_type"), "y_shape": [2, 1, n]}, repr(e)[:200], "values of shape (2, 1, nq)")
+            continue
+        if a.shape != rows.shape or b.shape != rows.shape or not torch.allclose(a, rows, rtol=1e-10, atol=1e-12) or not torch.allclose(b, rows, rtol=1e-10, atol=1e-12):
+            ctx.fail("oracle", "interp:singleton-batch-dim", {"method": method, "bc": kw.get("bc_type"), "y_shape": [2, 1, n]},
+                     {"y_at_construction": list(a.shape), "y_at_call": list(b.shape)}, {"shape": list(rows.shape)})
+    L = float(x[-1] - x[0])
+    y = torch.randn(n, dtype=DT, generator=g)
+    yper = y.clone()
+    yper[-1] = yper[0]
+    for method, kw in (("linear", {}), ("cspline", {"bc_type": "natural"})):
+        for mode in ("mirror", "periodic", "bound"):
+            yy = yper if mode == "periodic" else y
+            qs = torch.tensor([float(x[0]) - 0.37 * L, float(x[0]) - 1.21 * L, float(x[-1]) + 0.43 * L, float(x[-1]) + 1.63 * L, float(x[0]) + 0.51 * L], dtype=DT)
+            ctx.count(("query-gradient-outside", method, mode), nontrivial=True)
+            try:
+                f = lambda t: Interp1D(x, yy, method=method, extrap=mode, **kw)(t)
+                qq = qs.clone().requires_grad_()
+                gq, = torch.autograd.grad(f(qq).sum(), qq)
+                h = 1e-6
+                fd = (f(qs + h) - f(qs - h)) / (2 * h)
+            except Exception as e:
+                ctx.fail("oracle", "interp:query-gradient-outside:exception", {"method": method, "extrap": mode}, repr(e)[:200], "a gradient")
+                continue
+            if not torch.allclose(gq, fd, rtol=1e-5, atol=1e-6 * (1 + float(fd.abs().max()))):
+                ctx.fail("oracle", "interp:query-gradient-outside", {"method": method, "extrap": mode, "queries_relative_to_range": [-0.37, -1.21, 1.43, 2.63, 0.51]},
+                         {"autograd": gq.tolist()}, {"central_differences_of_the_interpolant": fd.tolist()})
 
 
 def search(ctx):
